@@ -74,6 +74,16 @@ type FuncSpec struct {
 	TimeoutS    int
 	Fresh       []string // names of results declared fresh
 	NoFrame     bool
+	GhostExit   []*GhostAssign
+	Devirt      []ast.Expr // concrete types to which interface calls in this function are resolved
+}
+
+type GhostAssign struct {
+	LHS  ast.Expr
+	RHS  ast.Expr
+	Src  string
+	Tags []string
+	Line int
 }
 
 type SpecFunc struct {
@@ -150,7 +160,7 @@ var clauseKeywords = map[string]bool{
 	"inline": true, "pure": true, "requires": true, "ensures": true, "modifies": true, "panics": true,
 	"ghost": true, "loop": true, "invariant": true, "decreases": true, "unroll": true, "lemma": true,
 	"axiom": true, "package": true, "global": true, "trusted": true, "ghostfield": true, "opaque": true,
-	"timeout": true, "noframe": true, "end": true, "ghostglobal": true, "monitor": true,
+	"timeout": true, "noframe": true, "end": true, "ghostglobal": true, "monitor": true, "ghostexit": true, "devirt": true,
 }
 
 type specLine struct {
@@ -646,6 +656,26 @@ func (sp *Specs) ParseSpecText(lines []specLine, file, pkgPath string) error {
 				for _, n := range strings.Fields(s.rest) {
 					cur.Opaque[n] = true
 				}
+			case "devirt":
+				te, err := parser.ParseExpr(s.rest)
+				if err != nil {
+					return errf("bad devirt type: %v", err)
+				}
+				cur.Devirt = append(cur.Devirt, te)
+			case "ghostexit":
+				parts := strings.SplitN(s.rest, ":=", 2)
+				if len(parts) != 2 {
+					return errf("ghostexit lhs := rhs")
+				}
+				l, err := parseSpecExpr(strings.TrimSpace(parts[0]))
+				if err != nil {
+					return errf("bad ghostexit lhs: %v", err)
+				}
+				r, err := parseSpecExpr(strings.TrimSpace(parts[1]))
+				if err != nil {
+					return errf("bad ghostexit rhs: %v", err)
+				}
+				cur.GhostExit = append(cur.GhostExit, &GhostAssign{LHS: l, RHS: r, Src: s.rest, Line: s.line})
 			case "ghost":
 				f := strings.Fields(s.rest)
 				if len(f) < 2 {
